@@ -5,7 +5,7 @@ From Coq Require Extraction.
 From Coq Require Import ExtrOcamlBasic.
 From TV Require Import Prelude.Str Prelude.PosixPath Prelude.Utf8 Prelude.UnicodeTables
   Codec.Quote Codec.DateFmt Codec.TrashInfo Logic.OrigLoc Logic.Glob Logic.PyInt Logic.Indexes Logic.Scope Logic.Reply Logic.Calendar Prog.Prog Cmd.Put Cmd.Scan Cmd.Empty Cmd.Rm Cmd.ListCmd Cmd.Restore
-  Proofs.ProgProofs Proofs.PathProofs Proofs.EmptyProofs Proofs.OrderProofs Proofs.DecisionProofs Proofs.RestoreProofs Proofs.PutSafe Proofs.PutProofs Proofs.PutMore World.World.
+  Proofs.ProgProofs Proofs.PathProofs Proofs.EmptyProofs Proofs.OrderProofs Proofs.DecisionProofs Proofs.RestoreProofs Proofs.PutSafe Proofs.PutProofs Proofs.PutMore World.World Proofs.RmDecision.
 Extraction "../driver/model.ml"
   str_eqb split_on dec_of_Z
   basename dirname join2 normpath abspath
@@ -20,4 +20,4 @@ Extraction "../driver/model.ml"
   home_trash_dir_path_from_env shrink_user
   list_main empty_main rm_main restore_main is_trashinfo_name sort_files
   accepts consent_step order_step refuse_step sel_step sel_final decision_step env_now put_step put_init collision_step valid_res valid_name is_info_path skip_step
-  wapply wprobe upd.
+  wapply wprobe upd rm_dec_step.
